@@ -3,6 +3,7 @@ package goja
 import (
 	"fmt"
 	"go/ast"
+	"math"
 	"reflect"
 	"strings"
 
@@ -434,7 +435,12 @@ func (o *objectGoReflect) _valueOfInt() Value {
 }
 
 func (o *objectGoReflect) _valueOfUint() Value {
-	return intToValue(int64(o.fieldsValue.Uint()))
+	u := o.fieldsValue.Uint()
+	if u <= math.MaxInt64 {
+		return intToValue(int64(u))
+	}
+	// same as ToValue(uint64): beyond the int64 range it is a float
+	return floatToValue(float64(u))
 }
 
 func (o *objectGoReflect) _valueOfBool() Value {
